@@ -146,9 +146,8 @@ Theorem C45_model_passes_checker : forall (v : jview) (remote backing : gmap) (n
 Proof. exact model_push_ok. Qed.
 
 (** Whenever the observed states agree with the model along a schedule (the correspondence
-    check; every push considers each bookmark once), the checker accepts every observed push. *)
+    check), the checker accepts every observed push. *)
 Theorem C45_agreement_implies_property : forall (c : case),
-  Forall push_names_ok (c_steps c) ->
   c_flags_ok c = true ->
   replay (ancb (c_graph c)) (c_auto_track c) (c_names c) (c_steps c) empty_world = true ->
   okb c = true.
